@@ -20,11 +20,12 @@ PROPS = {
                  "Non-trivial: >=1 DH rotation on each axis (a sender key id >= 2 and a recipient key id >= 2 appeared on the wire) and >=2 data messages in flight in one direction; "
                  "distinct by hash of the script."),
         "assumptions": COMMON_ASSUME + ["empty texts are excluded (indistinguishable from a heartbeat at the API)"],
-        "exhaustive_checks": ["C04exhaustive"],
+        "exhaustive_checks": ["C04exhaustive", "C04long"],
         "tests": [
             {"name": "TestProp_C04_Words", "quick": {"shards": 8, "checks": 120, "timeout": 600}, "thorough": {"shards": 16, "checks": 4000, "timeout": 3000}},
             {"name": "TestProp_C04_Random", "quick": {"shards": 8, "checks": 25, "timeout": 400},
              "thorough": {"shards": 16, "checks": 250, "timeout": 3000}},
+            {"name": "TestProp_C04_Long", "kind": "plain", "quick": {"shards": 4, "timeout": 400}, "thorough": {"shards": 4, "timeout": 3000}},
             {"name": "TestProp_C04_Exhaustive", "kind": "plain", "quick": {"shards": 8, "timeout": 400},
              "thorough": {"shards": 16, "timeout": 3000}},
         ],
